@@ -24,7 +24,7 @@ CHECKS["C02"] = dict(
 CHECKS["C06"] = dict(
     category="proof",
     text="The rejection loop, the per-checkpoint loop and the scan over checkpoints of the real RejectionLoop / solve_adaptive_save_at are verified with loop invariants (Hoare rules executed on the real body) against abstract solver/error/controller contracts, for every accept/reject history, checkpoint layout, eps, dt0, clip on/off; the two real controllers are verified against the abstract Control contract with symbolic parameters.",
-    note="termination is not claimed; solver/error/controller are abstract objects constrained only by their contracts (real solver.step frame: C02; real interpolation frames: C05; real controllers: here); test_util.solve_adaptive_save_every_step (native Python while) is not covered; scalar real arithmetic; power atoms use monotonicity axioms",
+    note="termination is not claimed; solver/error/controller are abstract objects constrained only by their contracts (real solver.step frame: C02; real interpolation frames: C05; real controllers: here); test_util.solve_adaptive_save_every_step (native Python while over concrete values, outside the reach of the jaxpr-based generator) is covered only by a bounded stand-in, never counted as proved: 36 (quick) / 120 (thorough) native runs with a mock solver and piecewise-constant admissible step size x real controllers x clip on/off x dt0, checking the C06 clauses on the saved sequence; scalar real arithmetic; power atoms use monotonicity axioms",
     design_ref="DESIGN.md section 4 (C06)",
 )
 CHECKS["C07"] = dict(
